@@ -46,7 +46,7 @@ CHECKS.update({
 
 CHECKS.update({
  "C05": ("grammar-based property testing of unquoted words (piece grammar x variable environment x IFS x directory tree), differential oracle vs bash 5.2.15",
-         "2.5k (quick) / 50k (thorough) generated cases of 3-6 words each, every word evaluated in four contexts (set --, command argument, for list, array literal) under five IFS settings against a fixed tree; argument count, order and contents compared with bash via a length-prefixed dump. Exploration.",
+         "8k (quick) / 100k (thorough) generated cases of 3-6 words each, every word evaluated in four contexts (set --, command argument, for list, array literal) under five IFS settings and three shapes of $HOME (plain, containing a blank, containing a glob character) against a fixed tree; argument count, order and contents compared with bash via a length-prefixed dump. Exploration.",
          "whitespace IFS only (stated domain); bash 5.2.15 reference; a literal `:` directly after a tilde prefix is kept out of the generated words (bash's own rule there depends on quoting later in the word)", "DESIGN.md §3 C05 (design) and §8 (as built)"),
 })
 
